@@ -113,7 +113,7 @@ class C15:
             "'', 0, text, None, nan, 2.5, non-Mixed columns and the empty design for the model; replace: random mappings "
             'over the three column types, disjoint (oracle + model) and chained (model only), NaN keys, malformed keys / '
             'values; keep_only / dm[...]: every subset of 1-4 columns by name, by object and mixed, through keep_only(*), '
-            'keep_only([..]) and dm[..], with unknown names, foreign columns, aliases and non-column arguments; also by object after the column's name was looked up (col.name, keep_only / dm[...] by object) and the column was then renamed, re-added under a new name or swapped names with another column (judged by the current name); z: Float '
+            'keep_only([..]) and dm[..], with unknown names, foreign columns, aliases and non-column arguments; also by object after the name of the column was looked up (col.name, keep_only / dm[...] by object) and the column was then renamed, re-added under a new name or swapped names with another column (judged by the current name); z: Float '
             'and Mixed columns with >= 2 distinct finite values and nan/inf/text/None cells (tolerance 1e-9 on the Python '
             'side), plus families with a rational standard deviation compared exactly with the model. Every table is '
             'built with columns inserted in non-alphabetical order and in one of three row orders (as created / permuted '
